@@ -47,8 +47,9 @@ fn first_violation<'a>(r: &'a RunResult, prop: &str) -> Option<&'a crate::runner
 }
 
 pub fn check_main(def: &CheckDef, tier: Tier, seed: u64) -> i32 {
-    let agg = coord::explore(def, tier, seed);
     let findings = load_findings();
+    let known_sigs: Vec<String> = findings.iter().filter(|f| f.status == "known" && f.property == def.id).map(|f| f.signature.clone()).collect();
+    let agg = coord::explore(def, tier, seed, &known_sigs);
     let mut exit = 0;
     let mut violations_reported = 0;
     let mut known_printed: Vec<String> = Vec::new();
@@ -56,7 +57,12 @@ pub fn check_main(def: &CheckDef, tier: Tier, seed: u64) -> i32 {
     let mut by_sig: std::collections::BTreeMap<String, &RunResult> = std::collections::BTreeMap::new();
     for r in &agg.violating {
         for v in r.violations.iter().filter(|v| v.props.iter().any(|p| p == def.id)) {
-            by_sig.entry(signature(def.id, &v.oracle, &v.sig)).or_insert(r);
+            let sg = signature(def.id, &v.oracle, &v.sig);
+            // prefer a run whose repro scenario targets this very signature
+            let targeted = r.violations.iter().find(|x| !known_sigs.contains(&signature(def.id, &x.oracle, &x.sig))).map(|x| signature(def.id, &x.oracle, &x.sig) == sg).unwrap_or(true);
+            if targeted || !by_sig.contains_key(&sg) {
+                by_sig.entry(sg).or_insert(r);
+            }
         }
     }
     let _ = std::fs::create_dir_all(format!("{}/replays", verif_dir()));
@@ -73,11 +79,11 @@ pub fn check_main(def: &CheckDef, tier: Tier, seed: u64) -> i32 {
         // unknown violation: minimise, write the replay file, report
         let start = r.repro.clone().expect("violating run carries its scenario");
         let budget = Duration::from_secs(if tier == Tier::Quick { 120 } else { 600 });
-        let min = if std::env::var("MEMSIM_NO_SHRINK").is_ok() { start.clone() } else { crate::shrink::shrink(def, &start, def.id, &v.oracle, budget) };
+        let min = if std::env::var("MEMSIM_NO_SHRINK").is_ok() { start.clone() } else { crate::shrink::shrink(def, &start, def.id, &v.oracle, &v.sig, budget) };
         // re-run the minimised scenario to get its message and digest
         let rr = coord::eval_many(def, &[min.clone()], Duration::from_secs(300));
         let (msg, digest, still) = match &rr[0] {
-            Some(x) => match x.violations.iter().find(|y| y.oracle == v.oracle) {
+            Some(x) => match x.violations.iter().find(|y| y.oracle == v.oracle && y.sig == v.sig) {
                 Some(y) => (y.msg.clone(), x.log_digest.clone(), true),
                 None => (v.msg.clone(), x.log_digest.clone(), false),
             },
